@@ -67,7 +67,10 @@ def history(draw, broker):
         first = {**first, "q": queues[0], "topics": None}
     ops.append(first)
     if draw(st.booleans()):
-        ops.append(draw(start_op(queues, clients)))
+        second = draw(start_op(queues, clients))
+        if draw(st.booleans()):
+            second = {**second, "q": first["q"], "topics": first["topics"], "category": first["category"]}
+        ops.append(second)
     for _ in range(draw(st.integers(2, 12))):
         r = draw(st.integers(0, 19))
         if r < 9:
@@ -85,6 +88,12 @@ def history(draw, broker):
             ops.append(draw(start_op(queues, clients)))
         else:
             ops.append(draw(finish))
+        if draw(st.integers(0, 5)) == 0:
+            # several consume() calls in flight at once (two clients racing for the same messages), then collected
+            for c in draw(st.lists(st.integers(0, 3), min_size=2, max_size=3, unique=True)):
+                ops.append({"op": "launch", "c": c})
+            ops.append({"op": "collect", "patience": draw(st.sampled_from([0.05, 0.5]))})
+            ops.append(draw(terminal))
     case = {"broker": broker, "seed": draw(st.integers(0, 2**16)), "ops": ops}
     if broker != "mem":
         lat = st.lists(st.sampled_from([0.0, 0.0, 0.001, 0.002, 0.005]), max_size=25)
@@ -99,7 +108,7 @@ def classify(out: Outcome, case: dict, w: brokerops.World | None) -> None:
     out.cls("broker-" + case["broker"])
     if w is not None:
         done_terms = {e["op"]["op"] for e in w.events if e["op"]["op"] in ("ack", "nack", "reject", "requeue") and "id" in e}
-        handed = any("id" in e and e["op"]["op"] == "consume" for e in w.events)
+        handed = any(("id" in e and e["op"]["op"] == "consume") or e.get("collected") for e in w.events)
         noncat = any(c.category != "NORMAL" for c in w.cons)
         out.nontrivial = handed and bool(done_terms) and (len(done_terms) >= 2 or w.cancel_effective > 0 or noncat)
         if w.cancel_effective:
